@@ -174,9 +174,11 @@ func runC25(c *Ctx) {
 		c.StoredIs(fn, "batch "+m+": second part is the caller's key", c.StoresD(fn, "&var:varargs[1]"), 1, "key")
 	}
 	c.OnlyIn("store PrefixStorageBatch.prefix", c.WhoStores("PrefixStorageBatch", "prefix"), 1, "storage/leveldb.newPrefixStorageBatch")
-	c.OnlyIn("call newPrefixStorageBatch", c.WhoCalls("storage/leveldb.newPrefixStorageBatch"), 1, PS+"NewBatch")
-	if fn := c.Need(PS + "NewBatch"); fn != nil {
-		c.ArgIs(fn, "NewBatch: batch prefix is the storage's prefix", c.CallsTo(fn, "storage/leveldb.newPrefixStorageBatch"), 1, 0, "st.Prefix()", "st.prefix")
+	// every prefix batch is made with the prefix of the storage that makes it
+	mkSites := c.WhoCalls("storage/leveldb.newPrefixStorageBatch")
+	c.Floor(nil, "call sites of newPrefixStorageBatch", len(mkSites), 1)
+	for _, s := range mkSites {
+		c.ArgIs(s.Fn, "batch prefix is the storage's prefix", []ssa.Instruction{s.In}, 1, 0, "st.Prefix()", "st.prefix")
 	}
 	if fn := c.Need("storage/leveldb.newPrefixStorageBatch"); fn != nil {
 		c.StoredIs(fn, "batch constructor keeps the given prefix", c.StoresD(fn, "*.prefix"), 1, "prefix")
@@ -212,7 +214,10 @@ func runC25(c *Ctx) {
 	c.OnlyIn("call PrefixStorageBatch.LBatch", c.WhoCalls("(*storage/leveldb.PrefixStorageBatch).LBatch"), 0, "storage/leveldb.(*Storage).BatchFuncWithNewBatch") // the save function of the batch function (seen only with resolved dynamic calls)
 	if fn := c.Need(PS + "Batch"); fn != nil {
 		raw := c.CallsTo(fn, "(*storage/leveldb.Storage).Batch")
-		c.MP(fn, "Batch: written only while the prefix is set", raw, 1, GNonNil("st.key(*)"))
+		c.MP(fn, "Batch: written only while the prefix is set", raw, 1, GNonNil("st.key(*)"), GNonNil("st.Prefix()"), GNonNil("st.prefix"))
+		c.MP(fn, "Batch: written only if the batch was made for this storage's prefix", raw, 1,
+			GTrue("bytes.Equal(st.Prefix(), batch.prefix)"), GTrue("bytes.Equal(batch.prefix, st.Prefix())"),
+			GTrue("bytes.Equal(st.prefix, batch.prefix)"), GTrue("bytes.Equal(batch.prefix, st.prefix)"))
 	}
 	if fn := c.Need(PS + "BatchFunc"); fn != nil {
 		mk := c.CallsTo(fn, "(*storage/leveldb.Storage).BatchFuncWithNewBatch")
@@ -221,9 +226,23 @@ func runC25(c *Ctx) {
 			// the new-batch closure yields the storage's own prefix batch
 			if mc, ok := CallArg(mk[0], 3).(*ssa.MakeClosure); ok {
 				cl := mc.Fn.(*ssa.Function)
+				// the prefix of a replacement batch is the one read when the batch function was made: a
+				// prefix read when a full batch is replaced is nil once the storage was closed, and a
+				// batch with a nil prefix writes raw keys (an add that passed the closed check before
+				// the Close still fills it)
 				for _, r := range Returns(cl) {
-					c.Report(cl, "BatchFunc: new batches are prefix batches of this storage", c.InstrPos(r), c.D(RetVal(r, 0)) == "st.NewBatch()", c.D(RetVal(r, 0)))
+					d := c.D(RetVal(r, 0))
+					c.Report(cl, "BatchFunc: new batches are prefix batches of this storage", c.InstrPos(r),
+						d == "leveldbstorage.newPrefixStorageBatch(st.Prefix())" || d == "leveldbstorage.newPrefixStorageBatch(st.prefix)" || d == "st.NewBatch()", d)
 				}
+				late := 0
+				for _, in := range allInstrs(cl) {
+					if cc := callCommon(in); cc != nil && CalleeFullName(cc) != "storage/leveldb.newPrefixStorageBatch" {
+						late++
+					}
+				}
+				c.Report(cl, "BatchFunc: the prefix of a replacement batch is read when the batch function is made, not when the batch is replaced", cl.Pos(), late == 0,
+					fmt.Sprintf("%d calls inside the new-batch closure besides the batch constructor (the storage may be closed by then)", late))
 			} else {
 				c.Unresolved(fn, "BatchFunc: new-batch closure", c.D(CallArg(mk[0], 3)))
 			}
@@ -312,14 +331,15 @@ func runC25(c *Ctx) {
 	}
 	if fn := c.Need("storage/leveldb.BatchRemove"); fn != nil {
 		it := c.CallsTo(fn, "(*storage/leveldb.Storage).Iter")
-		c.ArgIs(fn, "BatchRemove: iterates the given range", it, 1, 0, "φ(&var:complit|r)")
+		c.ArgIs(fn, "BatchRemove: iterates the given range", it, 1, 0, "φ(&var:complit|r)", "&var:complit", "r")
 		wr := c.CallsTo(fn, "(*storage/leveldb.Storage).Batch")
 		c.ArgIs(fn, "BatchRemove: writes the batch it filled", wr, 1, 0, "&var:batch")
 		c.MP(fn, "BatchRemove: batch written only after the iteration succeeded", wr, 1, GOk("st.Iter(*)"))
 		exactDeletes(c, fn, "BatchRemove")
-		// the range only ever narrows from below: Start := a key the iteration handed over (or the
-		// original Start); Limit is never written
-		var lim, start []ssa.Instruction
+		// the iterated range is the caller's, narrowed from below only: Limit is the caller's Limit,
+		// Start is the caller's Start or a key the iteration handed over; the caller's own Range
+		// value is never written (a caller that keeps the range of its prefix would skip keys next time)
+		nlim, nstart := 0, 0
 		for _, f := range WithClosures(fn) {
 			for _, in := range allInstrs(f) {
 				st, ok := in.(*ssa.Store)
@@ -327,20 +347,27 @@ func runC25(c *Ctx) {
 					continue
 				}
 				a := c.D(st.Addr)
+				v := c.D(st.Val)
+				if fa, isFA := st.Addr.(*ssa.FieldAddr); isFA && (strings.HasSuffix(a, ".Limit") || strings.HasSuffix(a, ".Start")) {
+					base := c.D(fa.X)
+					c.Report(f, "BatchRemove: the caller's range value is not written", c.InstrPos(in), !(base == "r" || strings.Contains(base, "|r)")), a+" <- "+v)
+				}
 				switch {
 				case strings.HasSuffix(a, ".Limit"):
-					lim = append(lim, in)
+					nlim++
+					c.Report(f, "BatchRemove: range limit is only ever the caller's limit", c.InstrPos(in), v == "r.Limit", v)
 				case strings.HasSuffix(a, ".Start"):
-					c.Report(f, "BatchRemove: range start only moves to the resume key", c.InstrPos(in), c.D(st.Val) == "var:start", c.D(st.Val))
+					c.Report(f, "BatchRemove: range start only moves to the resume key", c.InstrPos(in), v == "var:start" || v == "r.Start", v)
 				case a == "&var:start":
-					start = append(start, in)
-					v := c.D(st.Val)
-					c.Report(f, "BatchRemove: resume key is the original start or an iterated key", c.InstrPos(in), v == "key" || v == "φ(&var:complit|r).Start", v)
+					nstart++
+					c.Report(f, "BatchRemove: resume key is the original start or an iterated key", c.InstrPos(in), v == "key" || strings.HasSuffix(v, ".Start"), v)
 				}
 			}
 		}
-		c.Report(fn, "BatchRemove: range limit is never rewritten", fn.Pos(), len(lim) == 0, fmt.Sprintf("%d stores", len(lim)))
-		c.Report(fn, "BatchRemove: resume key assigned at two sites", fn.Pos(), len(start) == 2, fmt.Sprintf("%d stores", len(start)))
+		c.floors["R25.3 BatchRemove stores of the range limit (0 is fine)"] = [2]int{0, nlim}
+		c.Floor(fn, "BatchRemove: resume key assignments", nstart, 1)
+		// a batch bound below one never fills a batch: nothing would be removed, with success
+		c.MP(fn, "BatchRemove: succeeds only with a batch bound of at least one", c.SuccessReturns(fn), 1, GCmp("limit", ">=", "1"), GCmp("limit", ">", "0"))
 	}
 	// R25.4 --------------------------------------------------------------------------------------
 	c.Rule("R25.4", "NoBypass")
